@@ -866,6 +866,140 @@ def _h_thr(world: World, kind: str) -> None:
         raise HarnessError(f"world model wrong: the holder finished at {holder_out[0][-1]}, expected {L}")
 
 
+def _h_thr_cross(world: World, kind: str) -> None:
+    """Cross-lock case: the holder thread keeps the OTHER lock of the same client until L — it is stuck in a back-pressured
+    send_packet(None) (send lock) while the caller receives, or inside recv_packet(None) (receive lock) while the caller
+    sends.  The caller's operation does not need that lock: it is completable as soon as its own bytes are visible /
+    its own bytes fit, regardless of L; a zero budget must not wait for any lock."""
+    import threading
+    import time
+
+    from vsim.threads import Scheduler
+
+    calm = world.choose("swarm", 3) == 0
+    d, retry = _draw_common(world)
+    ctx = Ctx(world, f"thr-x-{kind}")
+    net = SimNet(world)
+    sched = Scheduler(world, switch_den=world.pick("switch_den", (3, 2, 6)))
+    world.sched = sched  # type: ignore[attr-defined]
+    L = 0.0 if calm else world.pick("hold", (30, 10, 60, 200)) * d  # long: most caller operations start while it is held
+    s0 = world.pick("start", (1, 2, 5, 12)) * d
+    n = 1 + world.choose("npkt", 3)
+    values, frames = _gen_frames(world, n + 1)
+    ser = StringLineSerializer()
+    tcs: list[float | None] = []
+    cap = world.pick("cap", (16, 4, 8, 64))
+    holder_bytes = cap + 1 + world.choose("hold.extra", 2 * cap)
+    peer: Any = None
+    if kind == "udp-recvlock-send":
+        lib: Any = SimSocket(net, _socket.AF_INET, _socket.SOCK_DGRAM, 0, "lib")
+        remote = ("10.0.0.9", 9000)
+        net.bind(lib, ("10.0.0.1", 0))
+        lib.connect(remote)
+        world.at(L, lambda: net.inject_dgram(lib, values[0].encode(), remote))
+    else:
+        lib, ps = net.socketpair(capacity_ab=cap)
+        peer = CreditPeer(world, ps)
+        if kind == "tcp-sendlock-recv":
+            # holder: needs holder_bytes - cap of credit, granted at L; caller: packets arrive on their own schedule
+            if calm:
+                peer.grant_at(0.0, math.inf)
+            else:
+                world.fault("capacity_small")
+                world.fault("peer_stops_reading")
+                peer.grant_at(L, math.inf)
+            writes, tcs = _arrivals(world, frames[1:], d, calm)
+            for t, data in writes:
+                peer.write_at(t, data)
+        else:  # tcp-recvlock-send: holder's packet arrives at L; caller's sends are back-pressured by the credit peer
+            peer.write_at(L, frames[0])
+            t = 0.0
+            if not calm:
+                world.fault("capacity_small")
+                world.fault("peer_stops_reading")
+                t = world.pick("grant.first", (0, 1, 5)) * d
+                for _ in range(world.choose("grants", 6)):
+                    peer.grant_at(t, world.pick("grant.k", (cap, 1, cap // 2, 3 * cap)))
+                    t += world.pick("grant.gap", (1, 3, 10)) * d
+            peer.grant_at(t, math.inf)
+    if not calm:
+        ctx.early_den = draw_rate(world, "sw.early", (0, 0, 6, 2))
+        ctx.early_steps = (d / 4, d / 2, d, 3 * d)
+    world.notes.update(target="x-" + kind, delta=d, retry_interval=retry, other_lock_released_at=L, caller_starts_at=s0, completable_at=list(tcs), capacity=cap, early_den=ctx.early_den, switch_den=sched.switch_den)
+    holder_out: list[Any] = []
+
+    with sync_engine(world, selector_cls=C11Selector), sched:
+        if kind == "udp-recvlock-send":
+            obj: Any = UDPNetworkClient(lib, DatagramProtocol(ser), retry_interval=retry)
+        else:
+            obj = TCPNetworkClient(lib, StreamProtocol(ser), retry_interval=retry)
+
+        def hold() -> None:
+            try:
+                if kind == "tcp-sendlock-recv":
+                    obj.send_packet("h" * (holder_bytes - 1), timeout=None)
+                    holder_out.append(("sent", world.now))
+                else:
+                    holder_out.append(("got", obj.recv_packet(timeout=None), world.now))
+            except Exception as e:
+                holder_out.append(("exc", type(e).__name__, str(e)))
+
+        th = threading.Thread(target=hold, name="holder")
+        try:
+            th.start()
+            time.sleep(s0)
+            got = 0
+
+            def tc_of(i: int) -> float | None:
+                return tcs[i] if i < len(tcs) else None
+
+            for opi in range(1 + world.choose("ops", 3)):
+                if opi:
+                    time.sleep(world.pick("pause", (0, 1, 5)) * d)
+                if kind == "udp-recvlock-send":
+                    T = _choose_T(world, world.now, world.now, d)
+                    _sync_call(ctx, "send_packet", T, world.now, lambda: obj.send_packet("ping", timeout=T))
+                    continue
+                if kind == "tcp-recvlock-send":
+                    size = world.pick("size", (cap // 2, 1, cap, cap + 1, 2 * cap + 3))
+                    packet = "m" * max(1, size - 1)
+                    tc = peer.completable_at(world.now, lib.tx_pipe.total_written + len(packet) + 1 - cap)
+                    T = _choose_T(world, world.now, tc, d)
+                    _sync_call(ctx, "send_packet", T, tc, lambda: obj.send_packet(packet, timeout=T))
+                    continue
+                if not world.choose("op.iter", 2):
+                    T = _choose_T(world, world.now, tc_of(got), d)
+                    if _sync_call(ctx, "recv_packet", T, tc_of(got), lambda: obj.recv_packet(timeout=T)) == "value":
+                        got += 1
+                    continue
+                m = 1 + world.choose("iter.n", 3)
+                target = got + world.choose("iter.target", m)
+                T = _choose_T(world, world.now, tc_of(target), d, none_ok=all(tc_of(j) is not None for j in range(got, got + m)))
+                it = obj.iter_received_packets(timeout=T)
+                remaining = T
+                for j in range(m):
+                    if j:
+                        time.sleep(world.pick("iter.pause", (0, 1, 5)) * d)
+                    s = world.now
+                    out = _sync_call(ctx, "iter.next", remaining, tc_of(got), lambda: next(it))
+                    if remaining is not None:
+                        remaining = max(0.0, remaining - (world.now - s))
+                    if out != "value":
+                        break
+                    got += 1
+            th.join()
+        finally:
+            if world.fatal is None and th.is_alive():
+                th.join()
+            obj.close()
+    if not holder_out or holder_out[0][0] == "exc":
+        ctx.fail("unexpected-exception", "holder", f"the lock-holder thread did not complete normally: {holder_out}")
+    if abs(holder_out[0][-1] - L) > EPS and not calm:
+        from vsim.world import HarnessError
+
+        raise HarnessError(f"world model wrong: the holder finished at {holder_out[0][-1]}, expected {L}")
+
+
 HARNESSES = [
     Harness("sync-recv-endpoint", lambda w: _h_sync_recv(w, "endpoint"), weight=2),
     Harness("sync-recv-client", lambda w: _h_sync_recv(w, "client"), weight=3),
@@ -878,4 +1012,7 @@ HARNESSES = [
     Harness("thr-tcp-recv", lambda w: _h_thr(w, "tcp-recv"), weight=2),
     Harness("thr-tcp-send", lambda w: _h_thr(w, "tcp-send"), weight=1),
     Harness("thr-udp-recv", lambda w: _h_thr(w, "udp-recv"), weight=1),
+    Harness("thr-x-tcp-sendlock-recv", lambda w: _h_thr_cross(w, "tcp-sendlock-recv"), weight=2),
+    Harness("thr-x-tcp-recvlock-send", lambda w: _h_thr_cross(w, "tcp-recvlock-send"), weight=1),
+    Harness("thr-x-udp-recvlock-send", lambda w: _h_thr_cross(w, "udp-recvlock-send"), weight=1),
 ]
